@@ -73,6 +73,8 @@ def _unary(sym, kind, pyfn=None):
     if kind in ('sin', 'cos') and getattr(en, 'period', None) is not None:
       t = reduce_mod_period(t, en.period)
     _note(en, kind, t)
+    if kind == 'exp':
+      en.assume(sym(t) > 0)       # A9: exp is positive (needed while executing when code divides by it)
     return sym(t)
   return h
 
@@ -144,6 +146,9 @@ def pow_(en, a, b):
   en.__dict__.setdefault('elem_args', {}).setdefault('pow', [])
   if not any(x[0].eq(t[0]) and x[1].eq(t[1]) for x in en.elem_args['pow']):
     en.elem_args['pow'].append(t)
+    # A9 instances needed already while executing (e.g. to divide by a power of a positive number)
+    en.assume(z3.Implies(t[0] > 0, POW(*t) > 0))
+    en.assume(z3.Implies(t[0] >= 0, POW(*t) >= 0))
   return POW(*t)
 
 
